@@ -104,7 +104,7 @@ def corpus():
 
 
 def run(ctx: Ctx):
-    n = 10000 if ctx.thorough() else 700
+    n = 5000 if ctx.thorough() else 700
     evaluate(ctx, corpus() + [make_case(ctx.rng, ctx.thorough()) for _ in range(n)])
 
 
